@@ -267,6 +267,33 @@ def is_scalar(atom):
     return is_constant(atom) or isinstance(atom, ScalarFunction)
 
 #==============================================================================
+def _may_be_matrix(expr):
+    """ Determine whether the given expression may be matrix valued: a matrix,
+    an outer product, a Hessian, a symbolic matrix expression, the gradient of
+    an expression that contains something vector valued, or a sum, a product,
+    a restriction, a jump or an average of such an expression.
+
+    There is no shape inference in this module: the answer errs on the side of
+    True (Dot then keeps the order of its arguments).
+    """
+    if isinstance(expr, (Matrix, ImmutableDenseMatrix)):
+        return expr.shape[1] > 1
+
+    if isinstance(expr, (Outer, Hessian)) or getattr(expr, 'is_MatrixSymbolicExpr', False):
+        return True
+
+    if isinstance(expr, Grad):
+        vectors = (VectorFunction, NormalVector, Tuple, Matrix, ImmutableDenseMatrix,
+                   Grad, Rot, Hessian)
+        return has(expr.args[0], vectors)
+
+    if isinstance(expr, (Add, Mul, Jump, Average,
+                         MinusInterfaceOperator, PlusInterfaceOperator)):
+        return any(_may_be_matrix(a) for a in expr.args)
+
+    return False
+
+#==============================================================================
 # TODO add dot(u,u) +2*dot(u,v) + dot(v,v) = dot(u+v,u+v)
 # now we only have dot(u,u) + dot(u,v)+ dot(v,u) + dot(v,v) = dot(u+v,u+v)
 # add dot(u,v) = dot(v,u)
@@ -355,7 +382,9 @@ class Dot(BasicOperator):
         b = reduce(mul, args_2)
         c = Mul(*c1)*Mul(*c2)
 
-        if str(a) > str(b):
+        # the product of two vectors is symmetric: they are put in a canonical
+        # order; matrix.vector and vector.matrix are different products
+        if not (_may_be_matrix(a) or _may_be_matrix(b)) and str(a) > str(b):
             a,b = b,a
 
         obj = Basic.__new__(cls, a, b)
